@@ -173,12 +173,17 @@ def update_uid_counter(H, idx):
 
     """
     uid = next(H._edge_uid)
-    if (
-        not isinstance(idx, str)
-        and not isinstance(idx, tuple)
-        and float(idx).is_integer()
-        and uid <= idx
-    ):
+    try:
+        int_like = (
+            not isinstance(idx, str)
+            and not isinstance(idx, tuple)
+            and float(idx).is_integer()
+        )
+    except (TypeError, ValueError):
+        # IDs that are not numbers (e.g., frozensets or bytes) never clash
+        # with the automatically generated IDs.
+        int_like = False
+    if int_like and uid <= idx:
         # tuple comes from merging edges and doesn't have as as_integer() method.
         start = int(idx) + 1
         # we set the start at one plus the maximum edge ID that is an integer,
